@@ -20,14 +20,15 @@ LEVEL_NOTE = ("Partial in this sense: the theorems are about the modelled consum
 RULE = ("four kinds of history: (overlap) the C11 case streams, pulls on each counting input iterator observed after "
         "construction and after every next(); (reader) 0-4 '#' lines, a column line and 0-8 data lines with LF / CRLF / "
         "no line ends, blank and short lines, k <= n+2 calls of next(), lines pulled observed after construction and "
-        "after every call; (writer) 1-6 scheme-less records on a recording handle observed after every write call, "
+        "after every call, plus Strict readers under the built-in scheme gdc-1.0.0 (34 columns) over valid lines and lines "
+        "that fail to parse (bad position, bad enum member, short line), calls continuing after each failure; (writer) 1-6 scheme-less records on a recording handle observed after every write call, "
         "headers declaring no order / Coordinate / BarcodesAndCoordinate / Unsorted / Unknown, sorting not asked for "
         "(assume_sorted=True passed or left at its default) / asked for / asked for but undecidable, += and .write(), "
         "records that fail Strict validation; (sorter) capacities 0-6, 0-20 adds, temp-dir "
         "listing and spill-file record counts after every add. Non-trivial: at least 3 consumer actions with no error.")
 ASSUMPTIONS = [
     "overlap inputs are list-backed counting iterators; the bound is claimed for histories without a raised error (a report loses the group in progress)",
-    "reader cases use Silent/Lenient stringency and headers without a version pragma, so header/record parsing never raises (the model's raise-before-pull path is proved but not exercised)",
+    "scheme-less reader cases use Silent/Lenient stringency (parsing never raises); Strict reader cases use the built-in scheme gdc-1.0.0 with lines whose parsing raises MafFormatException before the next line is pulled (which physical lines fail is part of the case; the model takes it as given)",
     "writer cases use a header without version pragma (optionally declaring a sort order); only MafWriter.__iadd__ is modelled (constructor output is observed and subtracted); an unsorted writer = one for which the caller did not ask for sorting (assume_sorted True or default), whatever order the header declares",
     "sorter temp-file I/O succeeds; sorted() returns a permutation of its argument (hypothesis of the theorem)",
 ]
@@ -45,7 +46,8 @@ def run_reader(case):
     from maflib.validation import ValidationStringency as VS
 
     cnt = K.Counting(list(case["lines"]))
-    stg = VS.Lenient if case.get("lenient") else VS.Silent
+    strict = bool(case.get("strict"))
+    stg = VS.Strict if strict else (VS.Lenient if case.get("lenient") else VS.Silent)
     try:
         r = MafReader(cnt, validation_stringency=stg)
     except Exception as e:
@@ -57,9 +59,13 @@ def run_reader(case):
             rec = next(it)
             obs["steps"].append([0, cnt.n])
             obs["_recs"].append(str(rec))
+        except StopIteration:
+            obs["steps"].append([1, 6, cnt.n])
+            break
         except Exception as e:
             obs["steps"].append([1, _exc(e), cnt.n])
-            break
+            if not strict:
+                break
     return obs
 
 
@@ -192,6 +198,8 @@ def to_model(case):
     if w == "overlap":
         return K.m_overlap(case["case"])
     if w == "reader":
+        if case.get("strict"):
+            return [5, [S(l) for l in case["lines"]], list(case["bad"]), case["k"]]
         return [1, [S(l) for l in case["lines"]], case["k"]]
     if w == "writer":
         return [2, case["mode"], [[S(c), S(l), 1 if v else 0] for c, l, v in case["recs"]]]
@@ -254,9 +262,16 @@ def oracle(case, obs):
             out.append("reader-constructor-pulled-beyond-one-lookahead-line")
         if obs["init"][1] < min(len(lines), nh + 1):
             out.append("reader-constructor-did-not-reach-the-column-line")
-        for k, st in enumerate(obs["steps"], 1):
+        k = 0
+        prev = obs["init"][1]
+        for st in obs["steps"]:
             if st[0] != 0:
-                break
+                if st[2] != prev:
+                    out.append("reader-pulled-lines-during-a-failing-next")
+                    break
+                continue
+            k += 1
+            prev = st[1]
             at = nh + 1 + k                 # physical line number of the record just returned
             if st[1] > at + 1:
                 out.append("reader-pulled-more-than-one-line-beyond-the-returned-record")
@@ -306,6 +321,8 @@ def classify(case, obs):
         c = case["case"]
         return "overlap/%s/%s" % (c["stream"], "plain" if c["kind"] == 0 else "allele")
     if w == "reader":
+        if case.get("strict"):
+            return "reader/strict-gdc-1.0.0/%s" % ("some-lines-fail" if case["bad"] else "all-valid")
         return "reader/%s/lines=%s" % ("iter" if case.get("via_iter") else "next", "0-3" if len(case["lines"]) < 4 else "4+")
     if w == "writer":
         return "writer/mode=%d/order=%s/%s/%s" % (
@@ -349,6 +366,56 @@ def gen_reader(rng):
     lines = [l + (rng.choice(["", "\n", "\r\n"]) if end == "mixed" else end) for l in lines]
     return {"what": "reader", "lines": lines, "k": max(0, len(lines) - nh + rng.choice([-2, 0, 1, 2])),
             "lenient": rng.random() < 0.3, "via_iter": rng.random() < 0.3}
+
+
+GDC_COLS = None
+GDC_VALS = {"Hugo_Symbol": "TP53", "Entrez_Gene_Id": "7157", "Center": "BI", "NCBI_Build": "GRCh38", "Chromosome": "chr1",
+            "Start_Position": "10", "End_Position": "11", "Strand": "+", "Variant_Classification": "Missense_Mutation",
+            "Variant_Type": "SNP", "Reference_Allele": "A", "Tumor_Seq_Allele1": "A", "Tumor_Seq_Allele2": "C",
+            "dbSNP_RS": "novel", "Tumor_Sample_Barcode": "T1", "Matched_Norm_Sample_Barcode": "N1",
+            "Verification_Status": "Unknown", "Validation_Status": "Untested", "Mutation_Status": "Somatic",
+            "Sequencer": "Illumina HiSeq 2000", "Tumor_Sample_UUID": "6e8d6b4c-3b1f-4c1e-9c3a-0a1b2c3d4e5f"}
+
+
+def gdc_cols():
+    """column names of the built-in scheme gdc-1.0.0, read from the checked tree"""
+    global GDC_COLS
+    if GDC_COLS is None:
+        import json
+        import os
+        import maflib
+        path = os.path.join(os.path.dirname(maflib.__file__), "schemas", "gdc-1.0.0.json")
+        GDC_COLS = [c[0] for c in json.load(open(path))["columns"]]
+    return GDC_COLS
+
+
+def gen_reader_strict(rng):
+    """a Strict reader under gdc-1.0.0: valid lines, and lines whose parsing raises before the next line is pulled"""
+    cols = gdc_cols()
+    lines = ["#version gdc-1.0.0", "\t".join(cols)]
+    bad = []
+    for _ in range(rng.choice([0, 1, 2, 3, 5])):
+        vals = dict(GDC_VALS)
+        vals["Start_Position"] = str(rng.randint(1, 500))
+        vals["End_Position"] = str(int(vals["Start_Position"]) + rng.randint(0, 3))
+        q = rng.random()
+        if q < 0.65:
+            line = "\t".join(vals.get(c, "") for c in cols)
+        elif q < 0.8:
+            vals["Start_Position"] = rng.choice(["x", "0", "1.5"])
+            line = "\t".join(vals.get(c, "") for c in cols)
+        elif q < 0.9:
+            vals["Variant_Type"] = "NOT-A-TYPE"
+            line = "\t".join(vals.get(c, "") for c in cols)
+        else:
+            line = "\t".join(vals.get(c, "") for c in cols[:rng.randint(1, 33)])
+        lines.append(line)
+        if q >= 0.65:
+            bad.append(len(lines))
+    end = rng.choice(["", "\n", "\r\n"])
+    lines = [l + end for l in lines]
+    return {"what": "reader", "strict": True, "lines": lines, "bad": bad,
+            "k": len(lines) + rng.choice([-2, 0, 2]), "via_iter": rng.random() < 0.3}
 
 
 def gen_writer(rng):
@@ -409,7 +476,7 @@ def generate(rng, n):
         if r < 5:
             out.append(gen_overlap(rng))
         elif r < 8:
-            out.append(gen_reader(rng))
+            out.append(gen_reader_strict(rng) if k % 36 in (5, 17) else gen_reader(rng))
         elif r < 10:
             out.append(gen_writer(rng))
         else:
@@ -441,6 +508,13 @@ def shrink(case):
     if w == "overlap":
         for c in K.shrink(case["case"]):
             yield {"what": "overlap", "case": c}
+    elif w == "reader" and case.get("strict"):
+        ls = case["lines"]
+        for i in range(2, len(ls)):          # keep the version pragma and the column line
+            bad = [b if b < i + 1 else b - 1 for b in case["bad"] if b != i + 1]
+            yield dict(case, lines=ls[:i] + ls[i + 1:], bad=bad)
+        if case["k"] > 0:
+            yield dict(case, k=case["k"] - 1)
     elif w == "reader":
         ls = case["lines"]
         for i in range(len(ls)):
